@@ -5,8 +5,10 @@
    group_by_key_and_window over an arbitrary list of partitions).
    `win_start ts size off = ts - (ts - off) mod size` is the mathematically correct start. *)
 From Coq Require Import List ZArith Bool Permutation.
-From IB Require Import Window.Tumble Window.Grouping
-     Proofs.WindowTumbleProofs Proofs.WindowGroupingProofs Proofs.WindowCorrProofs.
+From IB Require Import Window.Tumble Window.Grouping Window.Timestamped Window.Join Window.Collect
+     Proofs.WindowTumbleProofs Proofs.WindowGroupingProofs Proofs.WindowCorrProofs
+     Proofs.WindowTimestampedProofs Proofs.WindowJoinProofs Proofs.WindowCollectProofs.
+From Coq Require Import Sorted.
 From IB Require Corr.C13.
 Import ListNotations.
 Open Scope Z_scope.
@@ -245,4 +247,331 @@ Proof. exact group_by_mixed_window_exact. Qed.
 Example c13_group_mixed_ex :   (* [0,2) and [0,4), [4,6) and [4,8) stay apart, 2 partitions *)
   group_by_mixed_window tumble_debug 2 4 0 [[(0, (1, 1)); (1, (1, 2)); (0, (3, 3))]; [(1, (3, 4)); (1, (5, 5)); (0, (5, 6))]]
   = Ok [((0, 2), [1]); ((0, 4), [2; 4]); ((2, 4), [3]); ((4, 8), [5]); ((4, 6), [6])].
+Proof. vm_compute. reflexivity. Qed.
+
+(* =====================================================================================
+   Entry points of helpers/timestamped.rs, Window::new                (Window/Timestamped.v)
+   ===================================================================================== *)
+
+(* ---- Window::new: a window iff end >= start in a debug build (the debug_assert), always in release ---- *)
+Theorem c13_window_new_spec :
+  forall s e : Z,
+    (window_new_debug s e = Ok (s, e) <-> s <= e)
+    /\ (window_new_debug s e = Panic <-> e < s)
+    /\ window_new_release s e = Ok (s, e).
+Proof. exact window_new_spec. Qed.
+
+Example c13_window_new_ex :
+  window_new_debug 3 (2 ^ 64 - 1) = Ok (3, 2 ^ 64 - 1) /\ window_new_debug 5 5 = Ok (5, 5)
+  /\ window_new_debug 5 4 = Panic.
+Proof. vm_compute. repeat split. Qed.
+
+(* ---- every window Window::tumble returns is non-empty, fits u64 and passes Window::new ---- *)
+Theorem c13_tumble_window_valid :
+  forall (ts size off : Z) (w : window),
+    tumble_debug ts size off = Ok w ->
+    fst w < snd w /\ 0 <= fst w /\ snd w < 2 ^ 64 /\ window_new_debug (fst w) (snd w) = Ok w.
+Proof. exact tumble_window_valid. Qed.
+
+Example c13_tumble_window_valid_ex : tumble_debug (2 ^ 63 + 7) 1000 250 = Ok (9223372036854775250, 9223372036854776250).
+Proof. vm_compute. reflexivity. Qed.
+
+(* ---- attach_timestamps / to_timestamped are element-wise: every element kept once, in order, with
+   exactly the timestamp ts_fn gives (no clamping, no filtering: 0 and values >= 2^63 included), and
+   they commute with the partitioning of the source ---- *)
+Theorem c13_entry_points_exact :
+  forall (T : Type) (f : T -> Z) (p : list T) (q : list (Z * T)) (ps : list (list T)),
+    (map snd (attach_timestamps f p) = p /\ map fst (attach_timestamps f p) = map f p
+     /\ length (attach_timestamps f p) = length p)
+    /\ to_timestamped q = q
+    /\ concat (map (attach_timestamps f) ps) = attach_timestamps f (concat ps).
+Proof. exact entry_points_exact. Qed.
+
+Example c13_entry_points_ex :
+  attach_timestamps (fun v => 2 ^ 63 + v) [0; 5] = [(2 ^ 63, 0); (2 ^ 63 + 5, 5)]
+  /\ to_timestamped [(0, 7); (2 ^ 64 - 1, 8)] = [(0, 7); (2 ^ 64 - 1, 8)].
+Proof. vm_compute. split; reflexivity. Qed.
+
+(* ---- src.attach_timestamps(f).group_by_window(size, off): every element in exactly the group of the
+   window of f(element), for every partitioning (`exact_grouping` is the five-fold statement spelled
+   out in c13_group_by_window_exact: unique keys, flatten = permutation of the tagged input, key set =
+   occurring windows, every group = all values of its window in input order, non-empty) ---- *)
+Theorem c13_attach_group_by_window_exact :
+  forall (T : Type) (f : T -> Z) (size off : Z) (ps : list (list T)),
+    1 <= size ->
+    (forall t, In t (concat ps) -> unrepresentable (f t) size off = false) ->
+    exists groups,
+      attach_group_by_window tumble_debug f size off ps = Ok groups
+      /\ exact_grouping window_eqb groups (map (spec_tag_attached f size off) (concat ps)).
+Proof. exact attach_group_by_window_exact. Qed.
+
+Example c13_attach_group_ex :   (* timestamps above i64::MAX, late event, 2 partitions *)
+  attach_group_by_window tumble_debug (fun v => 2 ^ 63 + v) 10 0 [[12; 3]; [8; 15]]
+  = Ok [((9223372036854775820, 9223372036854775830), [12; 15]);
+        ((9223372036854775810, 9223372036854775820), [3; 8])]
+  /\ forallb (fun v => negb (unrepresentable (2 ^ 63 + v) 10 0)) [12; 3; 8; 15] = true.
+Proof. vm_compute. split; reflexivity. Qed.
+
+Theorem c13_to_timestamped_group_by_window_exact :
+  forall (T : Type) (size off : Z) (ps : list (list (Z * T))),
+    1 <= size ->
+    (forall ev, In ev (concat ps) -> unrepresentable (fst ev) size off = false) ->
+    exists groups,
+      to_timestamped_group_by_window tumble_debug size off ps = Ok groups
+      /\ exact_grouping window_eqb groups (map (spec_tag_unkeyed size off) (concat ps)).
+Proof. exact to_timestamped_group_by_window_exact. Qed.
+
+Example c13_to_timestamped_group_ex :   (* the event at the epoch is kept *)
+  to_timestamped_group_by_window tumble_debug 10 0 [[(12, 1); (0, 2)]; [(9, 3)]]
+  = Ok [((10, 20), [1]); ((0, 10), [2; 3])].
+Proof. vm_compute. reflexivity. Qed.
+
+(* ---- src.attach_timestamps(f).key_by(kf).group_by_key_and_window(size, off) ---- *)
+Theorem c13_attach_key_group_exact :
+  forall (T K : Type) (keqb : K -> K -> bool),
+    (forall x y, reflect (x = y) (keqb x y)) ->
+    forall (f : T -> Z) (kf : Z * T -> K) (size off : Z) (ps : list (list T)),
+      1 <= size ->
+      (forall t, In t (concat ps) -> unrepresentable (f t) size off = false) ->
+      exists groups,
+        attach_key_group keqb tumble_debug f kf size off ps = Ok groups
+        /\ exact_grouping (kw_eqb keqb) groups
+                          (map (spec_tag_attached_keyed f kf size off) (concat ps)).
+Proof. exact attach_key_group_exact. Qed.
+
+Example c13_attach_key_group_ex :
+  attach_key_group Z.eqb tumble_debug (fun v => 3 * v) (fun tv => snd tv mod 2) 10 5 [[2; 3]; [4; 5]]
+  = Ok [((0, (5, 15)), [2; 4]); ((1, (5, 15)), [3]); ((1, (15, 25)), [5])].
+Proof. vm_compute. reflexivity. Qed.
+
+(* one stamped event of the known class (or size 0) panics the run *)
+Theorem c13_attach_group_by_window_panics :
+  forall (T : Type) (f : T -> Z) (size off : Z) (ps : list (list T)) (t : T),
+    In t (concat ps) -> (size <= 0 \/ unrepresentable (f t) size off = true) ->
+    attach_group_by_window tumble_debug f size off ps = Panic.
+Proof. exact attach_group_by_window_panics. Qed.
+
+Example c13_attach_panics_ex :
+  attach_group_by_window tumble_debug (fun v => 2 ^ 64 - 1 - v) 10 0 [[100]; [3]] = Panic.
+Proof. vm_compute. reflexivity. Qed.
+
+(* =====================================================================================
+   Window groupings feeding joins                                          (Window/Join.v)
+   ===================================================================================== *)
+
+(* ---- the hash join of joins.rs computes the nested-loop join, up to the order of the rows:
+   `join_spec keqb jk l r` = for every left row its matches (or, for left/full, one (Some, None)
+   row), then, for right/full, the right rows whose key the left side does not have ---- *)
+Theorem c13_join_is_nested_loop_join :
+  forall (K V W : Type) (keqb : K -> K -> bool),
+    (forall x y, reflect (x = y) (keqb x y)) ->
+    forall (jk : jkind) (l : list (K * V)) (r : list (K * W)),
+      Permutation (join_exec keqb jk l r) (join_spec keqb jk l r).
+Proof. exact join_exec_spec. Qed.
+
+Theorem c13_join_rows_iff :
+  forall (K V W : Type) (keqb : K -> K -> bool),
+    (forall x y, reflect (x = y) (keqb x y)) ->
+    forall (jk : jkind) (l : list (K * V)) (r : list (K * W)) (k : K),
+      (forall v w, In (k, (Some v, Some w)) (join_exec keqb jk l r) <-> In (k, v) l /\ In (k, w) r)
+      /\ (forall v, In (k, (Some v, None)) (join_exec keqb jk l r)
+                    <-> lefty jk = true /\ In (k, v) l /\ ~ In k (map fst r))
+      /\ (forall w, In (k, (None, Some w)) (join_exec keqb jk l r)
+                    <-> righty jk = true /\ In (k, w) r /\ ~ In k (map fst l))
+      /\ ~ In (k, (None, None)) (join_exec keqb jk l r).
+Proof. exact join_rows_iff. Qed.
+
+Example c13_join_ex :   (* [0,10) matches twice, [0,20) (same start) does not match, [30,40) only right *)
+  join_exec window_eqb JFull [((0, 10), 1); ((10, 20), 2)] [((0, 10), 7); ((0, 20), 8); ((0, 10), 9)]
+  = [((0, 10), (Some 1, Some 7)); ((0, 10), (Some 1, Some 9)); ((10, 20), (Some 2, None));
+     ((0, 20), (None, Some 8))].
+Proof. vm_compute. reflexivity. Qed.
+
+(* ---- a grouped collection on either side of a join: the joined rows are the same multiset for
+   every partitioning of the grouping's source (ps / qs: parallel / sequential run) ---- *)
+Theorem c13_window_join_mode_independent :
+  forall (K V W : Type) (keqb : K -> K -> bool),
+    (forall x y, reflect (x = y) (keqb x y)) ->
+    forall (jk : jkind) (ps qs : list (list (K * V))),
+      concat ps = concat qs ->
+      (forall r : list (K * W),
+          Permutation (join_exec keqb jk (gbk keqb ps) r) (join_exec keqb jk (gbk keqb qs) r))
+      /\ (forall l : list (K * W),
+             Permutation (join_exec keqb jk l (gbk keqb ps)) (join_exec keqb jk l (gbk keqb qs))).
+Proof. exact join_mode_independent. Qed.
+
+(* ---- events.group_by_window(size, off).join_<jk>(&table): the run succeeds, its rows are the
+   nested-loop join of THE groups with the table, and the left component of every row is the whole
+   group of its window (all values of the window in input order) - for every partitioning ---- *)
+Theorem c13_window_groups_join_table_exact :
+  forall (V W : Type) (jk : jkind) (size off : Z) (ps : list (list (Z * V)))
+         (table : list (list (window * W))),
+    1 <= size ->
+    (forall ev, In ev (concat ps) -> unrepresentable (fst ev) size off = false) ->
+    exists groups out,
+      group_by_window tumble_debug size off ps = Ok groups
+      /\ exact_grouping window_eqb groups (map (spec_tag_unkeyed size off) (concat ps))
+      /\ window_groups_join_table jk tumble_debug size off ps table = Ok out
+      /\ Permutation out (join_spec window_eqb jk groups (concat table))
+      /\ (forall w vs ow, In (w, (Some vs, ow)) out ->
+                          vs = values_of window_eqb w (map (spec_tag_unkeyed size off) (concat ps))
+                          /\ vs <> []).
+Proof. exact window_groups_join_table_exact. Qed.
+
+Theorem c13_table_join_window_groups_exact :
+  forall (V W : Type) (jk : jkind) (size off : Z) (table : list (list (window * W)))
+         (ps : list (list (Z * V))),
+    1 <= size ->
+    (forall ev, In ev (concat ps) -> unrepresentable (fst ev) size off = false) ->
+    exists groups out,
+      group_by_window tumble_debug size off ps = Ok groups
+      /\ exact_grouping window_eqb groups (map (spec_tag_unkeyed size off) (concat ps))
+      /\ table_join_window_groups jk tumble_debug size off table ps = Ok out
+      /\ Permutation out (join_spec window_eqb jk (concat table) groups)
+      /\ (forall w ox vs, In (w, (ox, Some vs)) out ->
+                          vs = values_of window_eqb w (map (spec_tag_unkeyed size off) (concat ps))
+                          /\ vs <> []).
+Proof. exact table_join_window_groups_exact. Qed.
+
+Theorem c13_window_groups_join_table_modes :
+  forall (V W : Type) (jk : jkind) (size off : Z) (ps : list (list (Z * V)))
+         (table : list (list (window * W))),
+    1 <= size ->
+    (forall ev, In ev (concat ps) -> unrepresentable (fst ev) size off = false) ->
+    exists out_par out_seq,
+      window_groups_join_table jk tumble_debug size off ps table = Ok out_par
+      /\ window_groups_join_table jk tumble_debug size off [concat ps] [concat table] = Ok out_seq
+      /\ Permutation out_par out_seq.
+Proof. exact window_groups_join_table_modes. Qed.
+
+Example c13_window_join_ex :   (* window [13,23) has events in both partitions: ONE row with the whole group *)
+  window_groups_join_table JInner tumble_debug 10 3 [[(14, 1); (5, 2)]; [(20, 3); (40, 4)]]
+                           [[((13, 23), 100); ((3, 13), 200)]; [((53, 63), 300)]]
+  = Ok [((13, 23), (Some [1; 3], Some 100)); ((3, 13), (Some [2], Some 200))]
+  /\ table_join_window_groups JLeft tumble_debug 10 3 [[((13, 23), 100); ((53, 63), 300)]]
+                              [[(14, 1); (5, 2)]; [(20, 3); (40, 4)]]
+     = Ok [((13, 23), (Some 100, Some [1; 3])); ((53, 63), (Some 300, None))].
+Proof. vm_compute. split; reflexivity. Qed.
+
+Theorem c13_window_join_panics :
+  forall (V W : Type) (jk : jkind) (size off : Z) (ps : list (list (Z * V)))
+         (table : list (list (window * W))) (ev : Z * V),
+    In ev (concat ps) -> (size <= 0 \/ unrepresentable (fst ev) size off = true) ->
+    window_groups_join_table jk tumble_debug size off ps table = Panic
+    /\ table_join_window_groups jk tumble_debug size off table ps = Panic.
+Proof. exact window_join_panics. Qed.
+
+Example c13_window_join_panics_ex :
+  window_groups_join_table JInner tumble_debug 10 5 [[(30, 1)]; [(3, 2)]] [[((25, 35), 0)]] = Panic.
+Proof. vm_compute. reflexivity. Qed.
+
+(* ---- the joins are parametric in the values (joins over per-group digests = digests of joins) ---- *)
+Theorem c13_join_map_values :
+  forall (K V V' W W' : Type) (keqb : K -> K -> bool) (f : V -> V') (g : W -> W')
+         (jk : jkind) (l : list (K * V)) (r : list (K * W)),
+    join_exec keqb jk (map_values K f l) (map_values K g r)
+    = map (map_row K V V' W W' f g) (join_exec keqb jk l r).
+Proof. exact join_exec_map_values. Qed.
+
+(* =====================================================================================
+   Sorting collectors and digests                                         (Window/Collect.v)
+   ===================================================================================== *)
+
+(* ---- Window::cmp (start, then end) and the derived (K, Window) order are total orders:
+   cmp = Eq iff equal, antisymmetric, transitive ---- *)
+Theorem c13_window_orders_are_total :
+  good_cmp window_cmp
+  /\ (forall (K : Type) (kcmp : K -> K -> comparison), good_cmp kcmp -> good_cmp (kw_cmp kcmp)).
+Proof. exact (conj good_cmp_window good_cmp_kw). Qed.
+
+(* ---- collect_par_sorted_by_key: a permutation of the rows, sorted by key, stable ---- *)
+Theorem c13_sorted_collect_spec :
+  forall (K X : Type) (kcmp : K -> K -> comparison) (rows : list (K * X)),
+    order_cmp kcmp ->
+    Permutation (collect_sorted_by_key kcmp rows) rows
+    /\ StronglySorted (fun a b => le_of kcmp (fst a) (fst b) = true) (collect_sorted_by_key kcmp rows)
+    /\ (forall k, good_cmp kcmp ->
+                  filter (fun a => match kcmp k (fst a) with Eq => true | _ => false end)
+                         (collect_sorted_by_key kcmp rows)
+                  = filter (fun a => match kcmp k (fst a) with Eq => true | _ => false end) rows).
+Proof. exact collect_sorted_spec. Qed.
+
+(* ---- a grouped collection through a sorting collector: the SAME list in both modes, whatever the
+   order the HashMap gave and however the source was partitioned ---- *)
+Theorem c13_sorted_collect_mode_independent :
+  forall (K V : Type) (keqb : K -> K -> bool) (kcmp : K -> K -> comparison),
+    (forall x y, reflect (x = y) (keqb x y)) -> good_cmp kcmp ->
+    forall ps qs : list (list (K * V)),
+      concat ps = concat qs ->
+      collect_sorted_by_key kcmp (gbk keqb ps) = collect_sorted_by_key kcmp (gbk keqb qs).
+Proof. exact sorted_collect_mode_independent. Qed.
+
+Example c13_sorted_collect_ex :   (* same start: ordered by end; equal keys keep their input order *)
+  collect_sorted_by_key window_cmp [((4, 8), 1); ((0, 4), 2); ((4, 6), 3); ((0, 4), 4)]
+  = [((0, 4), 2); ((0, 4), 4); ((4, 6), 3); ((4, 8), 1)]
+  /\ collect_sorted_by_key window_cmp (gbk window_eqb [[((4, 8), 1); ((0, 4), 2)]; [((4, 6), 3); ((0, 4), 4)]])
+     = collect_sorted_by_key window_cmp (gbk window_eqb [[((4, 8), 1); ((0, 4), 2); ((4, 6), 3); ((0, 4), 4)]]).
+Proof. vm_compute. split; reflexivity. Qed.
+
+(* ---- the one-pass digest table used for big event sets is the table of (len, sum, first, last)
+   of the model's groups, for every partitioning ---- *)
+Theorem c13_digest_table_correct :
+  forall (K : Type) (keqb : K -> K -> bool),
+    (forall x y, reflect (x = y) (keqb x y)) ->
+    forall ps : list (list (K * Z)),
+      Permutation (digests_of (gbk keqb ps)) (digest_table keqb (concat ps))
+      /\ (forall k d, In (k, d) (digest_table keqb (concat ps)) ->
+                      d = digest (values_of keqb k (concat ps)) /\ values_of keqb k (concat ps) <> []).
+Proof. exact digest_table_correct. Qed.
+
+Theorem c13_digest_spec :
+  forall (v : Z) (vs : list Z),
+    digest (v :: vs)
+    = (Z.of_nat (length (v :: vs)), fold_right Z.add 0 (v :: vs), hd 0 (v :: vs), last (v :: vs) 0).
+Proof. exact digest_spec. Qed.
+
+Example c13_digest_ex :
+  digest_table window_eqb [((0, 4), 5); ((4, 8), 1); ((0, 4), 7); ((0, 4), 2)]
+  = [((0, 4), (3, 14, 5, 2)); ((4, 8), (1, 1, 1, 1))].
+Proof. vm_compute. reflexivity. Qed.
+
+(* ---- keyed: events.group_by_key_and_window(..).join_<kind>(table keyed by (K, Window)) ---- *)
+Theorem c13_key_window_groups_join_table_exact :
+  forall (K V W : Type) (keqb : K -> K -> bool),
+    (forall x y, reflect (x = y) (keqb x y)) ->
+    forall (jk : jkind) (size off : Z) (ps : list (list (K * (Z * V))))
+           (table : list (list ((K * window) * W))),
+      1 <= size ->
+      (forall kv, In kv (concat ps) -> unrepresentable (fst (snd kv)) size off = false) ->
+      exists groups out,
+        group_by_key_and_window keqb tumble_debug size off ps = Ok groups
+        /\ exact_grouping (kw_eqb keqb) groups (map (spec_tag_keyed size off) (concat ps))
+        /\ key_window_groups_join_table keqb jk tumble_debug size off ps table = Ok out
+        /\ Permutation out (join_spec (kw_eqb keqb) jk groups (concat table))
+        /\ (forall kw vs ow, In (kw, (Some vs, ow)) out ->
+                             vs = values_of (kw_eqb keqb) kw (map (spec_tag_keyed size off) (concat ps))
+                             /\ vs <> []).
+Proof. exact key_window_groups_join_table_exact. Qed.
+
+Example c13_key_window_join_ex :
+  key_window_groups_join_table Z.eqb JFull tumble_debug 10 5
+    [[(1, (7, 10)); (2, (8, 20))]; [(1, (14, 30))]] [[((1, (5, 15)), 100); ((3, (5, 15)), 300)]]
+  = Ok [((1, (5, 15)), (Some [10; 30], Some 100)); ((2, (5, 15)), (Some [20], None));
+        ((3, (5, 15)), (None, Some 300))].
+Proof. vm_compute. reflexivity. Qed.
+
+(* ---- events.key_by_window(..).join_<kind>(table): stateless sub-plan, the very same rows for
+   every partitioning ---- *)
+Theorem c13_tagged_window_join_partition_free :
+  forall (V W : Type) (jk : jkind) (size off : Z) (ps : list (list (Z * V)))
+         (table : list (list (window * W))),
+    1 <= size ->
+    (forall ev, In ev (concat ps) -> unrepresentable (fst ev) size off = false) ->
+    tagged_window_join_table jk tumble_debug size off ps table
+    = Ok (join_exec window_eqb jk (map (spec_tag_unkeyed size off) (concat ps)) (concat table)).
+Proof. exact tagged_window_join_partition_free. Qed.
+
+Example c13_tagged_window_join_ex :
+  tagged_window_join_table JLeft tumble_debug 10 3 [[(14, 1); (5, 2)]; [(20, 3)]] [[((13, 23), 100)]]
+  = Ok [((13, 23), (Some 1, Some 100)); ((13, 23), (Some 3, Some 100)); ((3, 13), (Some 2, None))].
 Proof. vm_compute. reflexivity. Qed.
